@@ -78,6 +78,19 @@ def run(prop, tier, seed, replay=None):
         if k.startswith(prop + ".") and k.split(".", 1)[1] not in ("evaluations", "distinct_nontrivial"):
             cov[k.split(".", 1)[1]] = v
     chk.coverage = cov
+    if prop == "C01" and tier == "thorough" and not replay:
+        # oracle validation against two foreign implementations (DESIGN.md 2.4): a disagreement is a harness failure
+        import subprocess
+        import sys
+        tool = os.path.join(core.VERIF, "tools", "oracle_validate.py")
+        try:
+            p = subprocess.run([sys.executable, tool, "--seed", str(seed)], stdout=subprocess.PIPE, stderr=subprocess.STDOUT, text=True, timeout=3600)
+            tail = [ln for ln in p.stdout.splitlines() if ln.startswith(("zoneinfo:", "glibc:", "ORACLE-"))]
+            cov["oracle_validation"] = tail
+            if p.returncode != 0:
+                chk.inconclusive_because("oracle validation failed: %s" % "; ".join(p.stdout.splitlines()[-6:]))
+        except subprocess.TimeoutExpired:
+            chk.inconclusive_because("oracle validation timed out")
     # a monitor that observed nothing is inconclusive
     if not replay:
         need = {"C01": ["C01.region.recorded", "C01.region.rule-cycle", "C01.region.shifted", "C01.region.before-first"],
